@@ -145,3 +145,35 @@ Proof.
   - intros x Hx. apply continuous_logpoly.
     destruct (Rle_dec a b); [rewrite Rmin_left in Hx by assumption|rewrite Rmin_right in Hx by lra]; lra.
 Qed.
+
+(* ---- propagation of an argument error through a polynomial ---- *)
+Lemma polyval_abs_nonneg cs M : 0 <= M -> 0 <= polyval (map Rabs cs) M.
+Proof. intros HM. induction cs as [|c r IH]; cbn; [lra|]. assert (H := Rabs_pos c). nra. Qed.
+Lemma polyval_abs_le cs a M : Rabs a <= M -> Rabs (polyval cs a) <= polyval (map Rabs cs) M.
+Proof.
+  intros Ha. assert (HM : 0 <= M) by (generalize (Rabs_pos a); lra).
+  induction cs as [|c r IH]; cbn [polyval map]; [rewrite Rabs_R0; lra|].
+  eapply Rle_trans; [apply Rabs_triang|]. rewrite Rabs_mult.
+  assert (H1 := polyval_abs_nonneg r M HM). assert (H2 := Rabs_pos a). assert (H3 := Rabs_pos (polyval r a)).
+  assert (Rabs a * Rabs (polyval r a) <= M * polyval (map Rabs r) M) by (apply Rmult_le_compat; assumption).
+  lra.
+Qed.
+Lemma dpoly_abs_nonneg cs M : 0 <= M -> 0 <= dpoly (map Rabs cs) M.
+Proof.
+  intros HM. induction cs as [|c r IH]; cbn [dpoly map]; [lra|].
+  assert (H := polyval_abs_nonneg r M HM). nra.
+Qed.
+Theorem polyval_lipschitz cs a b M : Rabs a <= M -> Rabs b <= M ->
+  Rabs (polyval cs a - polyval cs b) <= Rabs (a - b) * dpoly (map Rabs cs) M.
+Proof.
+  intros Ha Hb. assert (HM : 0 <= M) by (generalize (Rabs_pos a); lra).
+  induction cs as [|c r IH]; cbn [polyval dpoly map].
+  - rewrite Rminus_diag_eq by reflexivity. rewrite Rabs_R0. lra.
+  - replace (c + a * polyval r a - (c + b * polyval r b)) with ((a - b) * polyval r a + b * (polyval r a - polyval r b)) by ring.
+    eapply Rle_trans; [apply Rabs_triang|]. rewrite !Rabs_mult.
+    assert (H1 := polyval_abs_le r a M Ha). assert (H2 := Rabs_pos (a - b)). assert (H3 := Rabs_pos b).
+    assert (H4 := dpoly_abs_nonneg r M HM). assert (H5 := Rabs_pos (polyval r a - polyval r b)).
+    assert (Q1 : Rabs (a - b) * Rabs (polyval r a) <= Rabs (a - b) * polyval (map Rabs r) M) by (apply Rmult_le_compat_l; assumption).
+    assert (Q2 : Rabs b * Rabs (polyval r a - polyval r b) <= M * (Rabs (a - b) * dpoly (map Rabs r) M)) by (apply Rmult_le_compat; assumption).
+    lra.
+Qed.
